@@ -73,7 +73,7 @@ def rowsOf {α : Type} (cols : List (List α)) : List (List (Option α)) :=
   (List.range ((cols.map List.length).foldl max 0)).map (fun k => cols.map (fun c => c[k]?))
 
 /-- The distinct values of a list, in order of first occurrence. -/
-def distinct : List Int → List Int
+def distinct {κ : Type} [BEq κ] : List κ → List κ
   | [] => []
   | x :: xs => x :: (distinct xs).filter (· != x)
 
@@ -113,20 +113,15 @@ def joinedPoint (cfg : JCfg) (s : JSet JMsg) : Option JOut :=
            time := s.time, byName := first.byName, dims := first.dims, tags := groupTags first
            fields := fieldMap ((s.values.zip cfg.names).flatMap (contribution cfg first)) }
 
-/-- The groups that occur, in order of first occurrence. -/
-def distinctS : List String → List String
-  | [] => []
-  | x :: xs => x :: (distinctS xs).filter (· != x)
-
 /-- Everything the join node has to emit for the given arrivals (a multiset: compare up to permutation). -/
 def joinOutput (cfg : JCfg) (arrivals : List (Nat × JMsg)) : List JOut :=
-  (distinctS (arrivals.map (·.2.grp))).flatMap (fun g =>
+  (distinct (arrivals.map (·.2.grp))).flatMap (fun g =>
     (joinSets cfg.parents (fun m => goRound cfg.tol m.time) (arrivals.filter (fun a => a.2.grp == g))).filterMap (joinedPoint cfg))
 
 /-- Hypothesis of the join clauses: within every group, every parent's (rounded) times never go back.
 `steps` lists what each parent sent in arrival order: (parent, group, time) of points AND barriers. -/
 def joinOrdered (cfg : JCfg) (steps : List (Nat × String × Int)) : Prop :=
-  ∀ i, i < cfg.parents → ∀ g ∈ distinctS (steps.map (·.2.1)),
+  ∀ i, i < cfg.parents → ∀ g ∈ distinct (steps.map (·.2.1)),
     nondecreasing (((steps.filter (fun s => s.1 == i && s.2.1 == g)).map (fun s => goRound cfg.tol s.2.2)))
 instance (cfg : JCfg) (steps : List (Nat × String × Int)) : Decidable (joinOrdered cfg steps) := by
   unfold joinOrdered; exact Nat.decidableBallLT _ _
